@@ -18,8 +18,10 @@ func Alias(g *G, n int) []Program {
 		inst := "i" + itoa(int64(i))
 		op := g.PickS("Add", "Sub", "Mul", "Quo", "FMA", "Set", "Neg", "Abs", "Sqrt", "SetMantExp", "MantExp", "Copy")
 		xd, yd, ud := g.Digits(g.Len()), g.Digits(g.Len()), g.Digits(g.Len())
-		if i%40 == 7 && (op == "Quo" || op == "Mul") {
-			// long operands: recursive division / Karatsuba with a reused (dirty) receiver buffer
+		if i%40 == 7 {
+			// long operands: recursive division / Karatsuba with a reused (dirty) receiver buffer - always present, not left to
+			// the draw of the operation (a seeded change detected in one round went unnoticed in a later one for that reason)
+			op = []string{"Quo", "Mul", "Quo"}[(i/40)%3]
 			xd, yd = g.Digits(2600+g.R.Intn(600)), g.Digits(1950+g.R.Intn(300))
 		}
 		xe := g.Exp()
